@@ -285,6 +285,7 @@ func (w *World) truncationChecks(everyByteBelow, samples int) {
 			runtime.Gosched()
 		}
 		mode := "eof"
+		seenKey := map[string]bool{}
 		for _, p := range truncationPoints(len(data), s.file.Boundaries(), everyByteBelow, samples, rng) {
 			for _, mode = range []string{"eof", "readerr"} {
 				if mode == "readerr" && p%3 != 0 {
@@ -317,10 +318,23 @@ func (w *World) truncationChecks(everyByteBelow, samples int) {
 					w.fail(violation("truncated-snapshot/panic/"+frame, "Restore of %s panicked: %v", what, pv))
 					return
 				case err == nil:
-					key := rowsKey(w.model.Cols, readAllRows(fresh, w.model.Cols))
+					rows := readAllRows(fresh, w.model.Cols)
+					key := rowsKey(w.model.Cols, rows)
 					if _, ok := legal[key]; !ok {
 						w.fail(violation("truncated-snapshot/silent-wrong-state", "Restore of %s returned nil but the state equals none of the %d commit-boundary states", what, len(legal)))
 						return
+					}
+					// ... and against the model, which does not trust the per-block commit ids the
+					// stream records: every block must equal the primary's block after some prefix of
+					// its commits (not judged when the snapshot read a block with a reserved insert:
+					// C08's known finding)
+					if stateLen <= p && !w.triggered["snapshot-reserved"] && !seenKey[key] {
+						seenKey[key] = true
+						if v := w.checkRestoredCut(si, s, fresh, rows, s.ack, "Restore of "+what); v != nil {
+							v.Sig = "truncated-snapshot/" + v.Sig
+							w.fail(v)
+							return
+						}
 					}
 					w.stats.probe("truncated-restore-accepted-at-commit-boundary")
 				default:
@@ -387,13 +401,29 @@ func (w *World) logTruncationChecks(file *SimRW, appended []*TapCommit, everyByt
 			}
 			var got []decodedCommit
 			w.stats.Checks++
+			lg := commit.Open(rd)
 			_, pv, frame, hung := guarded(limit, func() error {
-				return commit.Open(rd).Range(func(c commit.Commit) error {
+				return lg.Range(func(c commit.Commit) error {
 					got = append(got, decodeKey(c))
 					return nil
 				})
 			})
 			what := fmt.Sprintf("log (%d bytes, %d commits) cut at byte %d (%s)", len(data), len(full), p, mode)
+			if !hung && pv == nil && p%5 == 2 {
+				// the same Log object must stay usable after it ranged over a cut (a recovering
+				// process goes on appending to it): ranging again must return, not block on a lock
+				// the first pass left held
+				_, pv2, frame2, hung2 := guarded(3*time.Second, func() error { return lg.Range(func(commit.Commit) error { return nil }) })
+				if hung2 {
+					w.taint = true
+					w.fail(violation("truncated-log/hang-on-reuse", "a second Range on the Log that ranged over %s did not return within 3s", what))
+					return
+				}
+				if pv2 != nil {
+					w.fail(violation("truncated-log/panic/"+frame2, "a second Range on the Log that ranged over %s panicked: %v", what, pv2))
+					return
+				}
+			}
 			switch {
 			case hung:
 				w.taint = true
